@@ -281,6 +281,28 @@ fn touch_all(ml: &MorphemeList<&JapaneseDictionary>) -> Result<String, String> {
             }
         }
     }
+    // on-demand splitting into lists that do not share the source list's input: a list made by MorphemeList::empty, one
+    // scratch list reused for every morpheme, and a list that holds another analysis
+    let dict = ml.dict();
+    let mut scratch = MorphemeList::empty(*dict);
+    for m in ml.iter() {
+        for sm in [Mode::A, Mode::B] {
+            let mut fresh = MorphemeList::empty(*dict);
+            for out in [&mut fresh, &mut scratch] {
+                let did = m.split_into(sm, out).map_err(|e| format!("split_into: {:?}", e))?;
+                if did {
+                    let mut cat = String::new();
+                    for x in out.iter() {
+                        cat.push_str(&x.surface());
+                        sum += x.begin() + x.end() + x.begin_c() + x.end_c() + x.part_of_speech().len() + x.normalized_form().len() + format!("{:?}", x).len();
+                    }
+                    if cat.len() < m.surface().len() && !cat.is_empty() && !m.surface().starts_with(&cat) {
+                        return Err(format!("split_into({:?}) of {:?} into a foreign list reads back {:?}", sm, &*m.surface(), cat));
+                    }
+                }
+            }
+        }
+    }
     std::hint::black_box(sum);
     Ok(concat)
 }
